@@ -114,6 +114,8 @@ package httpcache
 //@   requires req.Method == "GET" && hget(req.Header, "Range") == ""                       # name: plain-get   props: C06 C03
 //@   requires req.Header != stored.Data.Header                                             # name: request-header-not-shared
 //@   requires refs == indexRead || len(refs) == 0                                          # name: refs-is-the-index-read-in-this-exchange   props: C08
+//@   requires 0 <= refIndex && refIndex < len(refs) && refs[refIndex] != nil && variantMatches(refs[refIndex], req.Header)   # name: the-variant-matches-the-request   props: C04
+//@   requires !sharesID(refs, refIndex) && loadedFrom(stored) == refs[refIndex].ResponseID    # name: loaded-under-an-id-no-other-variant-shares   props: C04
 //@   let tq = old(ccText(req.Header))
 //@   let ts = old(ccText(stored.Data.Header))
 //@   let hq = dirsHas(tq)
@@ -170,7 +172,7 @@ package httpcache
 //@   ensures forall x string :: old(deletedKeys)[x] ==> deletedKeys[x]                     # name: deletions-accumulate   props: C07
 
 //@ func (*transport).RoundTrip
-//@   property C18 C10 C06 C03 C11 C07 C08
+//@   property C18 C10 C06 C03 C11 C07 C08 C04
 //@   requires wired(r) && req != nil && req.URL != nil
 //@   assigns *
 //@   ensures (result0 != nil) != (result1 != nil)                                          # name: result-shape   props: C10
@@ -201,7 +203,7 @@ package httpcache
 //@   let life = old(freshness.UsefulLife)
 //@   let ageIn = old(fAge(freshness, now))
 //@   let validated304 = err == nil && resp.StatusCode == 304
-//@   assigns storeWrites, lastSetOK, lastRefs, bodyReadFailed, deletedKeys, lastStoredResp, lastStoredReqTime, lastStoredRespTime, lastStoredRefIndex, now, map(stored.Data.Header), map(resp.Header), resp.Body, stored.Data.Body
+//@   assigns storeWrites, lastSetOK, lastSetKey, lastRefs, bodyReadFailed, deletedKeys, lastStoredResp, lastStoredReqTime, lastStoredRespTime, lastStoredRefIndex, now, map(stored.Data.Header), map(resp.Header), resp.Body, stored.Data.Body
 //@   ensures upstreamCalls == old(upstreamCalls)                                                   # name: no-upstream
 //@   ensures (result0 != nil) != (result1 != nil)                                                  # name: result-shape   props: C10
 //@   ensures result1 != nil ==> result1 == err                                                     # name: error-is-origin-error   props: C10
